@@ -121,7 +121,7 @@ impl Monitor for C04 {
         vec![("runs", tier.pick(21_000, 420_000))]
     }
     fn rule(&self) -> &'static str {
-        "case i -> objective (i mod 7), optimizer kind (i/7 mod 5: SGD, SGDM, Adam, AdamW, RMSprop with random decay / dampening / momentum / centred), N in 1..23, B from {1,2,3,5,7,N-1,N,N+1,64} (so B=1, B not dividing N and B>N occur in every block of nine cases), E in 1..5, validation data in every second case, pools of 1..8 threads; random network of dense/conv/deconv/max-pool layers ending in a dense layer, pairwise different samples. (a) the hooked Forward/Update event log of the learn() call must match the trace grammar: per epoch the consecutive groups of B samples, each sample's forward pass exactly once and all before the group's single Update, Update step number = epoch index, then every validation sample once; nothing else. (b) a twin trainer recomputes the run: per-sample gradients from the library's own forward + hooked backward at the twin's weights, summed in sample order, one step of the documented update rule per group; final weights must agree within 1e-4 x (|w| + distance travelled) + 1e-6 and the per-epoch loss must equal the mean over groups of the mean per-sample loss. Distinct = distinct (network, optimizer, N, B, E) descriptors."
+        "case i -> objective (i mod 7), optimizer kind (i/7 mod 5: SGD, SGDM, Adam, AdamW, RMSprop with random decay / dampening / momentum / centred), N in 1..23, B from {1,2,3,5,7,N-1,N,N+1,64} (so B=1, B not dividing N and B>N occur in every block of nine cases), E in 1..5, validation data in every second case, pools of 1..8 threads; random network of dense/conv/deconv/max-pool layers ending in a dense layer, pairwise different samples. (a) the hooked Forward/Update event log of the learn() call (and, in every third case, of a second learn() call on the same network) must match the trace grammar: per epoch the consecutive groups of B samples, each sample's forward pass exactly once and all before the group's single Update, Update step number = epoch index, then every validation sample once; nothing else. (b) a twin trainer recomputes the run: per-sample gradients from the library's own forward + hooked backward at the twin's weights, summed in sample order, one step of the documented update rule per group; final weights must agree within 1e-4 x (|w| + distance travelled) + 1e-6 and the per-epoch loss must equal the mean over groups of the mean per-sample loss. Distinct = distinct (network, optimizer, N, B, E) descriptors."
     }
     fn assumptions(&self) -> Vec<&'static str> {
         vec![
@@ -406,6 +406,27 @@ impl Monitor for C04 {
             if (tl[e] as f64 - twin_loss[e]).abs() > tol {
                 out.viol("train:epoch-loss", format!("epoch {}: reported training loss {:e}, mean over groups of the mean per-sample loss {:e} [{}]", e + 1, tl[e], twin_loss[e], desc), detail());
                 break;
+            }
+        }
+        // a second learn() call on the same network: the grammar (groups, exactly-once, step
+        // number = epoch index of THAT call) must hold again
+        if idx % 3 == 0 {
+            let e2 = rng.range(1, 3);
+            let (res2, events2) = in_cached_pool(threads, || guard(|| net.learn(&xr, &tr, None, batch, e2 as i32, None)));
+            match res2 {
+                Ok((tl2, _, _)) => {
+                    out.count("second_learn_calls_trace_checked", 1);
+                    if tl2.len() != e2 {
+                        out.viol("train:epochs", format!("second learn() call: {} training-loss entries for {} epochs [{}]", tl2.len(), e2, desc), detail());
+                    } else if let Err((sig, what)) = check_trace(&events2, &ttags, None, batch, e2) {
+                        out.viol(&format!("{}:second-call", sig), format!("second learn() call on the same network: {} [{}]", what, desc), detail());
+                    }
+                }
+                Err(m) => {
+                    if !m.contains("Loss is NaN") && !m.contains("Option::unwrap") {
+                        out.viol("train:learn-panic", format!("second learn() call panicked: {} [{}]", short(&m, 160), desc), detail());
+                    }
+                }
             }
         }
         if idx < 3 {
